@@ -237,6 +237,47 @@ class Oracle(object):
     def seed(self, *a, **k):
         pass
 
+    # further `random` functions the unchanged library does not use: enumerated all the same, so that a change
+    # which starts using one is judged by its behaviour instead of stopping the harness
+    def choices(self, population, weights=None, *, cum_weights=None, k=1):
+        self._lc = None
+        pop = list(population); n = len(pop)
+        if n == 0:
+            raise IndexError("Cannot choose from an empty population")
+        if cum_weights is not None:
+            weights = [cum_weights[0]] + [cum_weights[i] - cum_weights[i - 1] for i in range(1, n)]
+        if weights is None:
+            probs = (1.0 / n,) * n
+        else:
+            tot = float(sum(weights)); probs = tuple(float(w) / tot for w in weights)
+        res = [pop[self.choose("choices", probs, (n, k))] for _ in range(k)]
+        self.log.append(("choices", list(pop), list(res)))
+        return res
+
+    def randrange(self, start, stop=None, step=1):
+        self._lc = None
+        r = range(start) if stop is None else range(start, stop, step)
+        if len(r) == 0:
+            raise ValueError("empty range for randrange()")
+        if len(r) > 64:
+            raise HarnessError("random.randrange over %d values is beyond the enumeration bound" % len(r))
+        return r[self.choose("randrange", (1.0 / len(r),) * len(r), (len(r),))]
+
+    def randint(self, a, b):
+        return self.randrange(a, b + 1)
+
+    def shuffle(self, x):
+        self._lc = None
+        n = len(x)
+        if n > 6:
+            raise HarnessError("random.shuffle of %d items is beyond the enumeration bound" % n)
+        perms = list(itertools.permutations(range(n)))
+        c = self.choose("shuffle", (1.0 / len(perms),) * len(perms), (n,))
+        x[:] = [x[i] for i in perms[c]]
+
+    def uniform(self, a, b):
+        return a + (b - a) * self.random()
+
     def __getattr__(self, name):
         raise HarnessError("unexpected use of random.%s by the code under test" % name)
 
